@@ -372,6 +372,65 @@ def l2_case(args):
     return (variant, gs, ts, norm, extra), errs, (types if rc == 0 else [])
 
 
+# ------------------------------------------------------------------------------------------------ L3 recount on the other worlds
+def l3_case(args):
+    """the cross-file recount on the worlds of other checks: MIX read-structure scenarios (novel isoforms, noise), C13's annotation
+       grammar (genes sharing exons on the same and on the opposite strand: gene-ambiguous reads), the multi-chromosome mixed world"""
+    kind, param, gs, ts, scratch = args
+    from vlib import syn, run, mix, worlds as W
+    if kind == "mix":
+        w = mix.make_world(param, annotated=1)
+        tag = "mix" + "-".join("%s%d" % x for x in param)
+    elif kind == "c13":
+        from props import c13
+        w = c13.make_world(param, 0)
+        tag = "c13" + c13.vtag(param)
+    else:
+        w = W.mixed_world(param, groups=False, multimappers=False)
+        tag = "mixed%d" % param
+    mono = set(t["id"] for g in w["genes"] for t in g["transcripts"] if len(t["exons"]) == 1)
+    d = os.path.join(scratch, "c02_l3_%s_%s_%s" % (tag, gs, ts))
+    shutil.rmtree(d, ignore_errors=True)
+    paths = syn.materialise(w, d)
+    out = os.path.join(d, "out")
+    rc = run.run_isoquant(run.base_argv(paths, out, extra=["--gene_quantification", gs, "--transcript_quantification", ts,
+                                                          "--model_construction_strategy", "all"]), paths["home"], os.path.join(d, "o.txt"))
+    if rc != 0:
+        errs = [("run-failed", "exit %d: %s" % (rc, open(os.path.join(d, "o.txt")).read()[-300:]))]
+    else:
+        try:
+            errs = recount(out, "OUT", gs, ts, mono)
+        except Exception as e:  # noqa
+            errs = [("recount-crashed", repr(e))]
+    shutil.rmtree(d, ignore_errors=True)
+    return (kind, param, gs, ts), errs
+
+
+def l3_jobs(ctx):
+    from vlib import mix
+    from props import c13
+    quick = ctx.tier == "quick"
+    pairs = [("unique_only", "unique_only"), ("all", "all")] if quick else [(s, s) for s in STRATEGIES]
+    jobs = []
+    scen = mix.scenarios(1, levels=(12,) if quick else (3, 12))
+    if not quick:
+        scen += [sc for sc in mix.scenarios(2, levels=(12,)) if len(sc) == 2]
+    for sc in scen:
+        for gs, ts in pairs:
+            jobs.append(("mix", sc, gs, ts, ctx.scratch))
+    ids = sorted(c13.ISO_MENU)
+    variants = [0, 1, 2] + [(isos, sec) for n in (1, 2) for isos in itertools.combinations(ids, n) for sec in c13.SECOND]
+    if quick:
+        variants = variants[:3] + variants[3::11]
+    for v in variants:
+        for gs, ts in pairs:
+            jobs.append(("c13", v, gs, ts, ctx.scratch))
+    for n_chr in ((2,) if quick else (2, 3)):
+        for gs, ts in pairs:
+            jobs.append(("mixed", n_chr, gs, ts, ctx.scratch))
+    return jobs
+
+
 def run(ctx):
     quick = ctx.tier == "quick"
     nmax = 2 if quick else 3
@@ -409,6 +468,12 @@ def run(ctx):
         for k, msg in errs:
             ctx.violation("l2:%s" % k, "pipeline variant %s gene=%s transcript=%s norm=%s %s: %s" % (key + (msg,)), {"case": list(key[:4])})
     ctx.note("L2 pipeline runs: %d; assignment types seen in read_assignments: %s" % (len(jobs), sorted(seen_types)))
+    j3 = l3_jobs(ctx)
+    for key, errs in core.pmap(l3_case, j3, chunksize=2):
+        for k, msg in errs:
+            ctx.violation("l3:%s:%s" % (key[0], k), "world %s %s gene=%s transcript=%s: %s" % (key + (msg,)), {"l3": [key[0], key[1], key[2], key[3]]})
+    ctx.note("L3 recount on MIX / C13-grammar / mixed worlds: %d pipeline runs" % len(j3))
+    jobs = jobs + j3
     ctx.coverage.update({
         "evaluations": total + len(jobs), "distinct_nontrivial": nontriv + len(jobs),
         "rule": "L1 case = (read-kind multiset, chromosome split, level, strategy, normalisation), distinct by construction; non-trivial = "
@@ -421,5 +486,17 @@ def run(ctx):
                         "multi-locus ties (one read kept at several loci) are C08's subject and not generated here"]
 
 
+def _tup(x):
+    return tuple(_tup(y) for y in x) if isinstance(x, list) else x
+
+
 def replay(ctx, case):
+    if "l3" in case:
+        kind, param, gs, ts = case["l3"]
+        key, errs = l3_case((kind, _tup(param), gs, ts, ctx.scratch))
+        return errs[0][1] if errs else None
+    if "case" in case:
+        c = case["case"]
+        key, errs, types = l2_case((c[0], c[1], c[2], c[3], (), ctx.scratch))
+        return errs[0][1] if errs else None
     return "re-run ./check C02 (deterministic)"
